@@ -40,7 +40,7 @@ FREE, OCC, UNU = BitmapValue.FREE, BitmapValue.OCCUPIED, BitmapValue.UNUSABLE
 
 
 def plan(tier, seed):
-    n = 96 if tier == 'quick' else 9000
+    n = 900 if tier == 'quick' else 9000
     return [{'idx': i, 'kind': 'synthetic' if i % 4 else 'planning'} for i in range(n)]
 
 
